@@ -547,9 +547,10 @@ def field_records(env, desc, f, slot_or_cell, o):
         last = {}
         parts = [[] for _ in range(k)]
         for fid, r in subrecs:
-            lo = last.get(fid, 0)
+            cl = 'unk' if fid < 0 else fid       # unknown fields keep their mutual order (it is part of the value)
+            lo = last.get(cl, 0)
             pi = rnd.randint(lo, k - 1)
-            last[fid] = pi
+            last[cl] = pi
             parts[pi].append(r)
         for p in parts:
             body = [b for r in p for b in r]
@@ -593,6 +594,14 @@ def msg_records(env, m, o):
                 continue
             if f.type == 'MESSAGE' and cell[1] is None:
                 continue
+            if o.stale and o.rnd is not None and o.rnd.random() < 0.35:
+                others = [x for x in desc.fields if x.group() == g and x.id != f.id]
+                if others:
+                    sf = o.rnd.choice(others)
+                    sc = gen_cell(o.rnd, env, sf, 9, canon=True)
+                    if not (sf.type == 'MESSAGE' and sc[1] is None):
+                        # recorded under the selected member's id so that every re-ordering keeps it in front of it
+                        out.append((f.id, key(sf.id, WT[sf.type]) + cell_payload(env, sf, sc, CANON_NOSPLIT)))
             for r in field_records(env, desc, f, cell, o):
                 out.append((f.id, r))
         elif f.label == 'REP':
@@ -645,6 +654,7 @@ def encode(env, m, o):
 
 
 CANON = Opts()
+CANON_NOSPLIT = CANON
 
 
 def older_schema(rnd, env, keep=0.6):
@@ -707,7 +717,8 @@ def special_inputs():
             [0x0b], [0x0c], [0x0e, 0x00], [0x0f, 0x00], [0x0a, 0xff, 0xff, 0xff, 0xff, 0x0f],
             [0x0a, 0x80, 0x80, 0x80, 0x80, 0x10], [0x0a, 0xff, 0xff, 0xff, 0xff, 0x07] + [0] * 8,
             [0x08] + [0xff] * 9 + [0x01], [0x08] + [0xff] * 9 + [0x7f], [0x08] + [0xff] * 10,
-            [0x09, 1, 2, 3, 4, 5, 6, 7], [0x0d, 1, 2, 3]]
+            [0x09, 1, 2, 3, 4, 5, 6, 7], [0x0d, 1, 2, 3],
+            [0x80, 0x80, 0x80, 0x80, 0x10, 0x01], [0xf8, 0xff, 0xff, 0xff, 0x0f, 0x01], [0xf8, 0xff, 0xff, 0xff, 0x7f, 0x01]]
 
 
 # ---------------------------------------------------------------- defects for CHECK
